@@ -313,6 +313,12 @@ def run_race(case, V, hooks, distinct):
 
         def slow_owner():
             # the owner is slow, not dead: it goes on with its invocations while recovery is looking at them
+            if counter["n"] % 2 == 0:
+                # ... including giving one back itself (what run() does when concurrency control refuses the start)
+                try:
+                    app.orchestrator.reroute_invocations({claimed[0]}, owner)
+                except (InvocationStatusError, KeyError):
+                    pass
             for i in claimed[1:]:
                 try:
                     if scen == "pending":
